@@ -53,6 +53,10 @@ def check(ctx, res, entries):
                                      "%s on `%s` runs the __bool__ / __len__ / __contains__ of a value of the traced program that is not pinned to a builtin "
                                      "container: a collection that loads itself on first use is loaded by the agent and the program sees different data; "
                                      "test `is not None` / use type()" % (kind, norm(op.subject)[:60])))
+            elif kind.startswith("extcall:itertools.") or kind in ("extcall:copy.copy", "extcall:copy.deepcopy", "extcall:json.dumps", "extcall:pickle.dumps"):
+                res.fail(Finding("C01.R3", fi.qname, op.node, fi.loc(op.node),
+                                 "%s hands `%s`, a value of the traced program, to a library function that iterates / copies / renders it: the program's own "
+                                 "code runs (a one-shot iterator is consumed, a lazily loading collection is loaded)" % (kind.split(":", 1)[1], norm(op.subject)[:60])))
             elif kind in ADVANCING:
                 res.fail(Finding("C01.R3", fi.qname, op.node, fi.loc(op.node),
                                  "%s advances `%s`, an iterator/generator of the traced program" % (kind, norm(op.subject)[:60])))
